@@ -15,7 +15,7 @@ RULE = ("Avalon widths {8,16,32,64} on native ports of equal, half/quarter (down
         "happens; distinct by (run, cycle)")
 TRUSTED = ["native-side stub written from core/crossbar.py, not the real controller",
            "for unequal widths the converter is covered cycle-exactly by C07; here the composition is judged by the specification only"]
-ASSUMPTIONS = ["Avalon master holds address/read/write/writedata/byteenable/burstcount while waitrequest is high, burstcount >= 1 and <= max_burst_length, bursts do not wrap the address space",
+ASSUMPTIONS = ["Avalon master holds address/read/write/writedata/byteenable/burstcount while waitrequest is high, burstcount >= 1; write bursts <= max_burst_length (the FIFO the bridge buffers them in), read bursts up to 255 beats; bursts do not wrap the address space",
                "rdata.last / wdata.last on the native side are 0"]
 
 
@@ -45,6 +45,9 @@ def gen_ops(c, rnd, n):
         kind = rnd.choice(["sr", "sw", "sw", "br", "bw", "bw"])
         inc = c.get("inc", 1)
         beats = 1 if kind in ("sr", "sw") else rnd.randint(2, max(2, min(c["max_burst"], (amax - 1) // inc + 1)))
+        if kind == "br" and rnd.random() < 0.3:
+            # max_burst_length only sizes the write-burst FIFOs: a read burst may be as long as burstcount allows
+            beats = rnd.randint(2, max(2, min(255, (amax - 1) // inc + 1)))
         a = rnd.randrange(0, amax - (beats - 1) * inc)
         if rnd.random() < 0.5 and ops:
             a = min(max(0, ops[-1]["addr"] + rnd.randint(-2, 3)), amax - 1 - (beats - 1) * inc)
